@@ -68,11 +68,19 @@ func (m *mrtWriter) dumpTable() []*mrt.MRTMessage {
 	peermap := make(map[netip.Addr]dumpPeer)
 
 	idx := func(p *table.Path) uint16 {
-		if p, ok := peermap[p.GetSource().Address]; ok {
+		// A locally originated path has no (an invalid) source address; it is
+		// filed under the dummy 0.0.0.0 peer. Using the invalid address itself
+		// produced a peer entry without any address octets, i.e. a
+		// PEER_INDEX_TABLE that cannot be parsed.
+		addr := p.GetSource().Address
+		if p.IsLocal() {
+			addr = netip.IPv4Unspecified()
+		}
+		if p, ok := peermap[addr]; ok {
 			return p.index
 		}
 		newIdx := uint16(len(peermap))
-		if p.GetSource().Address == netip.IPv4Unspecified() {
+		if p.IsLocal() {
 			// Adding dummy Peer record for locally generated routes
 			peermap[netip.IPv4Unspecified()] = dumpPeer{
 				index: newIdx,
@@ -81,9 +89,9 @@ func (m *mrtWriter) dumpTable() []*mrt.MRTMessage {
 				as:    0,
 			}
 		} else {
-			peermap[p.GetSource().Address] = dumpPeer{
+			peermap[addr] = dumpPeer{
 				index: newIdx,
-				addr:  p.GetSource().Address,
+				addr:  addr,
 				id:    p.GetSource().ID,
 			}
 		}
